@@ -8,6 +8,8 @@ import os
 from . import histcheck, repo
 
 EDITOR_RENAME = "#!/bin/sh\nsed -i 's/^Patch:.*/Patch: %s/' \"$1\"\n"
+EDITOR_RENAME_REWORD = ("#!/bin/sh\nsed -i -e 's/^Patch:.*/Patch: %s/' -e 's/^\\(one\\|two\\|three\\)$/\\1, reworded in the editor/' "
+                        "\"$1\"\n")
 EDITOR_MSG = "#!/bin/sh\nprintf 'edited subject\\n\\nedited body\\n' > \"$1\"\n"
 
 
@@ -28,6 +30,16 @@ SCENARIOS = {
         ["stg", "new", "-m", "one", "p1"], ["stg", "new", "-m", "two", "p2"],
         ["stg-editor", "rename:p1x", "edit", "p1"], ["stg", "edit", "-m", "new message", "p2"],
         ["stg", "edit", "--author", "Some One <so@example.com>", "p1x"], ["stg", "series", "-a"]],
+    # one interactive edit that BOTH renames and rewords a patch: in the middle of the applied
+    # patches (the patches above must be re-pushed onto the new commit), on top, unapplied, hidden
+    "edit-rename-and-reword-in-one-edit": [
+        ["stg", "new", "-m", "one", "p1"], ["write", "a.txt", "1\n"], ["stg", "refresh"],
+        ["stg", "new", "-m", "two", "p2"], ["write", "b.txt", "1\n"], ["stg", "refresh"],
+        ["stg", "new", "-m", "three", "p3"], ["write", "c.txt", "1\n"], ["stg", "refresh"],
+        ["stg-editor", "rename+reword:first", "edit", "--edit", "p1"], ["stg", "series", "-a"],
+        ["stg-editor", "rename+reword:third", "edit", "--edit", "p3"], ["stg", "pop"],
+        ["stg-editor", "rename+reword:second", "edit", "--edit", "p2"], ["stg", "series", "-a"],
+        ["stg", "pop", "-a"], ["stg", "push", "-a"], ["stg", "undo"], ["stg", "undo"], ["stg", "undo"]],
     "refresh-p-lower-patch": [
         ["stg", "new", "-m", "one", "p1"], ["write", "a.txt", "1\n"], ["stg", "refresh"],
         ["stg", "new", "-m", "two", "p2"], ["write", "b.txt", "1\n"], ["stg", "refresh"],
@@ -93,6 +105,30 @@ SCENARIOS = {
         ["stg", "edit", "-m", "two, reworded", "p2"], ["stg", "edit", "-m", "two, reworded again", "p2"],
         ["stg", "edit", "--author", "Some One <so@example.com>", "p3"], ["stg", "edit", "-m", "three again", "p3"],
         ["stg", "delete", "p2"], ["stg", "unhide", "p3"], ["stg", "delete", "p3"], ["stg", "undo"], ["stg", "undo"]],
+    # two patches that share ONE commit object (the same patch made twice from the same parent
+    # within one clock second): repair must keep the applied one applied and the hidden one hidden,
+    # on the consistent stack and after a plain git commit on top; also with the twins the other
+    # way round (the applied twin is the one created first)
+    "twin-patch-commits": [
+        ["stg-at", "1704110400", "new", "-m", "first", "first"], ["write", "a.txt", "a\n"],
+        ["stg-at", "1704110400", "refresh"],
+        ["stg-at", "1704110400", "new", "-m", "fix", "fix"], ["write", "b.txt", "b\n"],
+        ["stg-at", "1704110400", "refresh"], ["stg", "pop"],
+        ["stg-at", "1704110400", "new", "-m", "fix", "fix-1"], ["write", "b.txt", "b\n"],
+        ["stg-at", "1704110400", "refresh"], ["stg", "hide", "fix"], ["stg", "series", "-a"],
+        ["stg", "repair"], ["stg", "series", "-a"],
+        ["write", "c.txt", "c\n"], ["git", "commit", "-q", "-m", "extra"], ["stg", "repair"],
+        ["stg", "series", "-a"], ["stg", "pop", "-a"], ["stg", "push", "-a"]],
+    "twin-patch-commits-unapplied-twin": [
+        ["stg-at", "1704110400", "new", "-m", "first", "first"], ["write", "a.txt", "a\n"],
+        ["stg-at", "1704110400", "refresh"],
+        ["stg-at", "1704110400", "new", "-m", "fix", "fix"], ["write", "b.txt", "b\n"],
+        ["stg-at", "1704110400", "refresh"], ["stg", "pop"],
+        ["stg-at", "1704110400", "new", "-m", "fix", "fix-1"], ["write", "b.txt", "b\n"],
+        ["stg-at", "1704110400", "refresh"], ["stg", "pop"], ["stg", "push", "fix"], ["stg", "hide", "fix-1"],
+        ["stg", "repair"], ["stg", "series", "-a"],
+        ["write", "c.txt", "c\n"], ["git", "commit", "-q", "-m", "extra"], ["stg", "repair"],
+        ["stg", "series", "-a"], ["stg", "undo"], ["stg", "undo"]],
     "new-derived-names-with-hidden": [
         ["stg", "new", "-m", "Fix the thing"], ["stg", "hide", "fix-the-thing"], ["stg", "new", "-m", "Fix the thing"],
         ["stg", "pop"], ["stg", "new", "-m", "fix THE thing"], ["stg", "series", "-a"], ["stg", "unhide", "fix-the-thing"]],
@@ -143,13 +179,24 @@ def run_scenarios(stg, oracle_names, names=None, tag="ex"):
                         continue
                     if kind == "git":
                         r.git(st[1:], check=False)
+                        # the oracles that compare with the state BEFORE a command must see what plain
+                        # git did in between
+                        for orc in oracles:
+                            if isinstance(orc, histcheck.PrevOracle):
+                                orc(real, real.snapshot(), None, i, {"c": "git", "flags": []}, 0, "")
                         continue
                     env = None
                     argv = st[1:]
+                    if kind == "stg-at":
+                        # fixed author / committer dates: equal content gives the very same commit
+                        argv = st[2:]
+                        env = {"GIT_AUTHOR_DATE": st[1] + " +0000", "GIT_COMMITTER_DATE": st[1] + " +0000"}
                     if kind == "stg-editor":
                         spec, argv = st[1], st[2:]
                         script = os.path.join(r.home, "editor.sh")
-                        body = (EDITOR_RENAME % spec.split(":", 1)[1]) if spec.startswith("rename:") else EDITOR_MSG
+                        body = ((EDITOR_RENAME % spec.split(":", 1)[1]) if spec.startswith("rename:") else
+                                (EDITOR_RENAME_REWORD % spec.split(":", 1)[1]) if spec.startswith("rename+reword:")
+                                else EDITOR_MSG)
                         with open(script, "w") as f:
                             f.write(body)
                         os.chmod(script, 0o755)
